@@ -20,7 +20,7 @@ RULE = ("law part: points O, of order 2, 4 and 8, prime-order subgroup points an
         "as [s]G + [t]T (T of order 8 built by the model), P=Q, P=-Q, written raw in affine, projective (random Z, Z=1) "
         "and extended coordinates (T = XY/Z kept consistent by the driver), every alias pattern; outputs read raw, "
         "compared as group elements, extended outputs must satisfy TZ = XY, affine outputs Z = 1. "
-        "mul part: base points [s]G with known s and the neutral element; scalars 0, +-1, 2, n-1, n, n+1, 2n, kn+-1, "
+        "mul part: base points [s]G with known s and the neutral element, result separate and in place (r == p, r == q); scalars 0, +-1, 2, n-1, n, n+1, 2n, kn+-1, "
         "2^k, 2^k-1, alternating, negative, up to the bn capacity; verdict policy of DESIGN 3/C03: 0 <= k < n must give "
         "[k]P without error, any other scalar may give [k]P or raise an error. "
         "A case is non-trivial when no operand is the neutral element/zero; distinct = distinct (key, inputs)")
@@ -838,9 +838,13 @@ class MulPart(PointIO):
         self.expect(out, exp, affine=True)
 
     # ------------------------------------------------------------------ single multiplications
-    def mul_case(self, fn, d, k):
+    def mul_case(self, fn, d, k, alias=None):
+        """r = [k]P with a separate result object (sep) or in place, r == p (alias)"""
         ctx, R, E, cv = self.ctx, self.R, self.E, self.cv
-        key = "%s|%s|%s" % (impl_of(R, fn), cv.pcls(d), cv.kcls(k))
+        if alias is None:
+            alias = self.rng.random() < 0.5
+        key = "%s|%s|%s|%s|%s" % (impl_of(R, fn), cv.pcls(d), cv.kcls(k), "odd" if k & 1 else "even",
+                                  "alias" if alias else "sep")
         with Case(ctx, key, {"P": dshow(d), "k": hx(k), "via": fn},
                   nontrivial=cv.pcls(d) != "inf" and k % cv.n != 0) as go:
             if go:
@@ -848,9 +852,10 @@ class MulPart(PointIO):
                 E.fill(self.r_, R.poison)
                 R.bn_put(self.k, k)
                 raw = E.raw(self.p_)
-                res = R.call(fn, self.r_, self.p_, self.k)
-                self.judge(res, self.r_, cv.aff(cv.dmul(k, d)), cv.in_range(k))
-                ctx.check(E.raw(self.p_) == raw and R.bn_val(self.k) == k, ctx.cur_key + "|input-modified")
+                out = self.p_ if alias else self.r_
+                res = R.call(fn, out, self.p_, self.k)
+                self.judge(res, out, cv.aff(cv.dmul(k, d)), cv.in_range(k))
+                ctx.check((alias or E.raw(self.p_) == raw) and R.bn_val(self.k) == k, ctx.cur_key + "|input-modified")
 
     def gen_case(self, k):
         ctx, R, E, cv = self.ctx, self.R, self.E, self.cv
@@ -861,16 +866,19 @@ class MulPart(PointIO):
                 res = R.call("ed_mul_gen", self.r_, self.k)
                 self.judge(res, self.r_, cv.aff(cv.dmul(k, (1, 0))), cv.in_range(k))
 
-    def dig_case(self, d, k):
+    def dig_case(self, d, k, alias=None):
         ctx, R, E, cv = self.ctx, self.R, self.E, self.cv
+        if alias is None:
+            alias = self.rng.random() < 0.5
         kc = "z" if k == 0 else ("u" if k == 1 else ("top" if k >> (R.DIG - 1) else "d"))
-        with Case(ctx, "ed_mul_dig|%s|%s" % (cv.pcls(d), kc), {"P": dshow(d), "k": hx(k)},
-                  nontrivial=cv.pcls(d) != "inf" and k != 0) as go:
+        key = "ed_mul_dig|%s|%s|%s|%s" % (cv.pcls(d), kc, "odd" if k & 1 else "even", "alias" if alias else "sep")
+        with Case(ctx, key, {"P": dshow(d), "k": hx(k)}, nontrivial=cv.pcls(d) != "inf" and k != 0) as go:
             if go:
                 self.put(self.p_, cv.aff(d), "B")
                 E.fill(self.r_, R.poison)
-                res = R.call("ed_mul_dig", self.r_, self.p_, k)
-                self.judge(res, self.r_, cv.aff(cv.dmul(k, d)), True)
+                out = self.p_ if alias else self.r_
+                res = R.call("ed_mul_dig", out, self.p_, k)
+                self.judge(res, out, cv.aff(cv.dmul(k, d)), True)
 
     # ------------------------------------------------------------------ fixed base
     def fix_variants(self):
@@ -934,14 +942,21 @@ class MulPart(PointIO):
                         return "lin"
         return "ne"
 
-    def sim_case(self, fn, d, e, k, m):
+    def sim_case(self, fn, d, e, k, m, alias=None):
+        """alias 0: separate result, 1: r == p, 2: r == q, 3: p and q are the same object (needs P = Q)"""
         ctx, R, E, cv = self.ctx, self.R, self.E, self.cv
         impl = impl_of(R, fn)
         gen = impl == "ed_mul_sim_gen"
         if gen:
             d = (1, 0)
         rel = self.relation(d, e)
-        key = "%s|%s|%s" % (impl, rel, self.paircls([k, m]))
+        if alias is None:
+            alias = self.rng.choice([0, 0, 1, 2, 3])
+        if gen and alias in (1, 3):
+            alias = 2
+        if alias == 3 and cv.norm(d) != cv.norm(e):
+            alias = 1
+        key = "%s|%s|alias%d|%s" % (impl, rel, alias, self.paircls([k, m]))
         live = k != 0 and m != 0 and rel != "inf"
         with Case(ctx, key, {"P": dshow(d), "Q": dshow(e), "k": hx(k), "m": hx(m), "via": fn},
                   nontrivial=live and k % cv.n != 0 and m % cv.n != 0) as go:
@@ -951,12 +966,14 @@ class MulPart(PointIO):
                 E.fill(self.r_, R.poison)
                 R.bn_put(self.k, k)
                 R.bn_put(self.m, m)
+                out = {1: self.p_, 2: self.q_}.get(alias, self.r_)
+                pq = self.p_ if alias == 3 else self.q_
                 if gen:
-                    res = R.call(fn, self.r_, self.k, self.q_, self.m)
+                    res = R.call(fn, out, self.k, pq, self.m)
                 else:
-                    res = R.call(fn, self.r_, self.p_, self.k, self.q_, self.m)
+                    res = R.call(fn, out, self.p_, self.k, pq, self.m)
                 exp = cv.aff(cv.dadd(cv.dmul(k, d), cv.dmul(m, e)))
-                self.judge(res, self.r_, exp, cv.in_range(k) and cv.in_range(m))
+                self.judge(res, out, exp, cv.in_range(k) and cv.in_range(m))
 
     def lot_case(self, ds, ks, reps):
         ctx, R, E, cv = self.ctx, self.R, self.E, self.cv
@@ -1034,17 +1051,19 @@ class MulPart(PointIO):
         for k in ds:
             for fn in muls:
                 for d in ((1, 0), rp, (0, 0)):
-                    if ctx.mine(i):
-                        self.mul_case(fn, d, k)
-                    i += 1
+                    for alias in (False, True):
+                        if ctx.mine(i):
+                            self.mul_case(fn, d, k, alias)
+                        i += 1
             if ctx.mine(i):
                 self.gen_case(k)
             i += 1
         for k in (0, 1, 2, 3, 255, (1 << R.DIG) - 1, 1 << (R.DIG - 1)):
             for d in ((1, 0), rp, (0, 0)):
-                if ctx.mine(i):
-                    self.dig_case(d, k)
-                i += 1
+                for alias in (False, True):
+                    if ctx.mine(i):
+                        self.dig_case(d, k, alias)
+                    i += 1
         for pre, fix, size in fixes:
             for d in ((1, 0), rp, (0, 0)):
                 if ctx.mine(i):
@@ -1060,7 +1079,7 @@ class MulPart(PointIO):
                 for k in small:
                     for m in small:
                         if ctx.mine(i) and {cv.krange(k), cv.krange(m)} != {"xl", "xh"}:
-                            self.sim_case(fn, d, e, k, m)
+                            self.sim_case(fn, d, e, k, m, alias=(i // 7) % 4)
                         i += 1
         if lot:
             for n in (0, 1, 2, 3, 5, 8):
